@@ -452,6 +452,68 @@ func init() {
 			wg.Wait()
 		}
 		os.RemoveAll(fresh.dir)
+		// scripted history: a blob that exists only locally is first LOADED (restore of a cache hit whose
+		// file is missing) and then WRITTEN by another target producing identical bytes, in one build
+		{
+			u, err := newUniverse(base)
+			if err == nil {
+				w := wsState{}
+				w.T[tgExtraOut], w.T[tgGenExtra] = true, true
+				n0 := &c08node{u: u, ws: w, localA: map[string]bool{}, localB: map[string]bool{}, remoteM: map[string]bool{}}
+				n1, _ := runBuild(n0, ops[2], "")
+				if n1 != nil {
+					os.Remove(filepath.Join(n1.u.a.WS(), "a/extra.txt"))
+					n1.ws.T[tgMoveInput] = true
+					n1.hist = append(n1.hist, "delete //a:lib's extra.txt from the workspace", "move //b:gen's input (gen re-executes and writes the same bytes as extra.txt)")
+					n2, _ := runBuild(n1, ops[0], "")
+					if n2 != nil {
+						n3, _ := runBuild(n2, ops[1], "") // machine B must be able to restore everything
+						if n3 != nil {
+							os.RemoveAll(n3.u.dir)
+						}
+						os.RemoveAll(n2.u.dir)
+					}
+					os.RemoveAll(n1.u.dir)
+				}
+				os.RemoveAll(u.dir)
+			}
+		}
+		// a fault of the LOCAL layer while the remote is healthy: the build may fail, but the remote must
+		// not receive an object whose content does not match its digest, and machine B must still build correctly
+		{
+			u, err := newUniverse(base)
+			if err == nil {
+				w := wsState{}
+				w.source().Materialize(u.a.WS(), nil)
+				os.RemoveAll(u.a.CacheDir())
+				os.MkdirAll(u.a.CacheDir(), 0o755)
+				os.WriteFile(filepath.Join(u.a.CacheDir(), "cas"), []byte("not a directory: every local blob write fails"), 0o644)
+				rr := u.a.Run(grog, hist.RunOpts{Args: []string{"build", "//..."}, Env: map[string]string{"VERIF_REMOTE_DIR": u.remote}})
+				replay := map[string]any{"scenario": "local cache layer broken (cas is a file), remote healthy", "exit": rr.Exit, "grog_output_tail": tail(rr.Output, 800)}
+				if rr.TimedOut {
+					c.R.Violate(vc.Violation{Sig: "C08:hang-with-broken-local-layer", Detail: "the build did not exit", Replay: replay})
+				}
+				problems, _, _, _ := auditCache(abin, u.remote, "")
+				for _, p := range problems {
+					c.R.Violate(vc.Violation{Sig: "C08:remote-audit-after-local-layer-fault:" + p.Kind, Detail: "machine A's local cache layer failed every blob write while the remote was healthy: " + p.Detail, Replay: replay})
+				}
+				w.source().Materialize(u.b.WS(), nil)
+				rb := u.b.Run(grog, hist.RunOpts{Args: []string{"build", "//..."}, Env: map[string]string{"VERIF_REMOTE_DIR": u.remote}})
+				if rb.Exit != 0 {
+					c.R.Violate(vc.Violation{Sig: "C08:machine-B-fails-after-local-layer-fault-on-A", Detail: fmt.Sprintf("machine B exited %d: %s", rb.Exit, tail(rb.Output, 300)), Replay: replay})
+				} else {
+					cl := cleanFor(w)
+					for _, t := range w.source().Targets {
+						if d := hist.DiffListing(outputsListing(u.b.WS(), t), cl.listings[t.Label()]); d != "" {
+							c.R.Violate(vc.Violation{Sig: "C08:wrong-content-after-local-layer-fault-on-A", Detail: fmt.Sprintf("machine B: %s differs from a from-scratch build: %s", t.Label(), d), Replay: replay})
+						}
+					}
+				}
+				c.R.AddCounts(2, 1, 2, 2)
+				c.R.Nontrivial("local-layer-fault")
+				os.RemoveAll(u.dir)
+			}
+		}
 		// concurrent uploads of the same digest (two targets with identical output content), with a failing Put
 		casRace(c, "C08")
 	}
